@@ -14,7 +14,7 @@ V = os.path.dirname(os.path.dirname(os.path.abspath(__file__)))
 bid, patch = sys.argv[1], os.path.abspath(sys.argv[2])
 notes = sys.argv[3] if len(sys.argv) > 3 else None
 env = dict(os.environ, GOFLAGS='')
-REPO = os.environ.get('VERIF_REPO', REPO)
+REPO = os.environ.get('VERIF_REPO', '/repo')
 OUT = os.environ.get('BENIGN_OUT', os.path.join(V, 'benign'))
 def sh(cmd, cwd=None, timeout=1800):
     return subprocess.run(cmd, shell=True, cwd=cwd, capture_output=True, text=True, env=env, timeout=timeout)
